@@ -77,7 +77,8 @@ def run(ctx: Ctx) -> None:
                 "patterns (all patterns exhaustively for single parts), whitespace around condition texts; condition texts from valid well-formed trees; "
                 "assignments F/U/K per key so that every 'first fulfilled' index occurs; distinct = (string, assignment)")
     ctx.coverage["generated_changed"] = extract.regenerate(["CharClasses", "Grammar", "Indicators", "Cfv"])
-    ok = ctx.lean_build(MODULES + ["driver"])
+    ok = ctx.lean_build(MODULES)
+    drv = ctx.lean_build_driver()
     if ok:
         ctx.lean_audit(MODULES)
         if not ctx.quick:
@@ -155,7 +156,7 @@ def run(ctx: Ctx) -> None:
                               key=f"select:{s}:{sorted(rc.items())}")
     for row in rows[:: max(1, len(rows) // 6)][:6]:
         ctx.sample({"s": row["s"], "rc": row["rc"], "impl": row["impl"]})
-    if ok:
+    if drv:
         reqs = []
         for row in rows:
             parts_j = row["shape"][1] if row["shape"][0] == "ahb" else []
